@@ -1,4 +1,4 @@
 # properties whose check is designed (DESIGN.md section 4) but not built yet;
 # removed from here as each check lands
 _R = "check designed in DESIGN.md section 4 but not built yet in this commit; not claimed until it runs"
-PLANNED = {k: _R for k in ["C07", "C09", "C10", "C14"]}
+PLANNED = {k: _R for k in ["C07", "C14"]}
